@@ -1,13 +1,14 @@
-\* Object level, thorough: widths 1, 2 and 4, three namespaces (969 layouts of width 4: every padding amount,
-\* namespaces ending/starting at every cell incl. row boundaries), consistent object states, cold/upper/all.
+\* Object level, thorough: widths 1, 2 and 4, two namespaces incl. a reserved one (every padding amount,
+\* namespace boundary at every cell), FULL product of object states, proof cache cold/upper/all, plain cores.
 SPECIFICATION Spec
 CONSTANTS
   Ks = {1, 2, 4}
-  NsSeq <- Ns3
+  NsSeq <- Ns2
   WithEmpty = TRUE
   Levels = {"cold", "upper", "all"}
   MaxStep = 0
+  Plain = TRUE
   OnlyLayouts = FALSE
-  FullProduct = FALSE
+  FullProduct = TRUE
 INVARIANTS ObjCorrect FormatLossless SideRule LatentUnreachable
 CHECK_DEADLOCK FALSE
